@@ -40,6 +40,54 @@ func (c *Ctx) typeSwitchCases(pkgPath, fn string) (map[string]*ast.CaseClause, *
 		return false
 	})
 	if !found {
+		// the switch may have been moved into an unexported helper of the same package (two levels)
+		seen := map[*ast.FuncDecl]bool{fd: true}
+		frontier := []*ast.FuncDecl{fd}
+		for depth := 0; depth < 2 && !found; depth++ {
+			var next []*ast.FuncDecl
+			for _, f := range frontier {
+				ast.Inspect(f.Body, func(n ast.Node) bool {
+					call, ok := n.(*ast.CallExpr)
+					if !ok || found {
+						return !found
+					}
+					callee := Callee(pk.TypesInfo, call)
+					if callee == nil || callee.Pkg() == nil || callee.Pkg().Path() != pkgPath {
+						return true
+					}
+					for _, file := range pk.Syntax {
+						for _, d := range file.Decls {
+							hd, ok := d.(*ast.FuncDecl)
+							if !ok || hd.Body == nil || seen[hd] || pk.TypesInfo.Defs[hd.Name] != types.Object(callee) {
+								continue
+							}
+							seen[hd] = true
+							next = append(next, hd)
+							ast.Inspect(hd.Body, func(m ast.Node) bool {
+								ts, ok := m.(*ast.TypeSwitchStmt)
+								if !ok || found {
+									return !found
+								}
+								found = true
+								for _, st := range ts.Body.List {
+									cc := st.(*ast.CaseClause)
+									for _, e := range cc.List {
+										if t := pk.TypesInfo.TypeOf(e); t != nil {
+											out[types.TypeString(t, nil)] = cc
+										}
+									}
+								}
+								return false
+							})
+						}
+					}
+					return true
+				})
+			}
+			frontier = next
+		}
+	}
+	if !found {
 		return nil, pk, fd
 	}
 	return out, pk, fd
@@ -473,17 +521,20 @@ func R8Encrypt(c *Ctx) {
 	}
 	// XCryptBytesAES256 shape
 	var newCipher, newCTR, xor bool
-	EachCall(xc, func(call ssa.CallInstruction) {
-		args := call.Common().Args
-		switch CalleeName(call) {
-		case "crypto/aes.NewCipher":
-			newCipher = len(args) == 1 && IsParam(args[0], xc.Params[1])
-		case "crypto/cipher.NewCTR":
-			newCTR = len(args) == 2 && IsParam(args[1], xc.Params[2])
-		case "(crypto/cipher.Stream).XORKeyStream":
-			xor = len(args) == 2 && IsParam(args[1], xc.Params[0])
-		}
-	})
+	// the cipher set-up may live in an unexported helper: parameters are resolved back to XCryptBytesAES256's own
+	for _, xf := range HelperClosure(xc, 2) {
+		EachCall(xf, func(call ssa.CallInstruction) {
+			args := call.Common().Args
+			switch CalleeName(call) {
+			case "crypto/aes.NewCipher":
+				newCipher = len(args) == 1 && c.RootParam(args[0], xc, 0) == xc.Params[1]
+			case "crypto/cipher.NewCTR":
+				newCTR = len(args) == 2 && c.RootParam(args[1], xc, 0) == xc.Params[2]
+			case "(crypto/cipher.Stream).XORKeyStream":
+				xor = len(args) == 2 && c.RootParam(args[1], xc, 0) == xc.Params[0]
+			}
+		})
+	}
 	if newCipher && newCTR && xor {
 		c.R.Ok(rule, FuncShort(xc), "aes.NewCipher(key) → cipher.NewCTR(block, iv) → XORKeyStream(dst, src)", c.pos(xc.Pos()), "fresh AES-CTR keystream from the key/IV parameters on every call (per-task restart at the session IV)", true)
 	} else {
@@ -868,7 +919,7 @@ func ifaceLocalTypes(pk *packages.Package, fd *ast.FuncDecl, id *ast.Ident, case
 // R8PackerWidth — the packer writes every fixed-width integer at its full width.
 func R8PackerWidth(c *Ctx) {
 	const rule = "R8-packer-width"
-	c.R.Rule(rule, "in the packer package every binary.PutUintN writes into a buffer of exactly N/8 bytes, N/8 is the size of the sized integer parameter it encodes (int64→8, int32/uint32→4; platform int and len() are 32-bit on the wire), the value is not narrowed before it is written, and the bookkeeping size grows by the same number of bytes", 5)
+	c.R.Rule(rule, "in the packer package every binary.PutUintN writes into a buffer of exactly N/8 bytes, N/8 is the size of the sized integer parameter it encodes (int64→8, int32/uint32→4; platform int and len() are 32-bit on the wire), the value is not narrowed before it is written, and the bookkeeping size grows by the same number of bytes", 2)
 	pk := c.P.SSAPkg[PkgPacker]
 	if pk == nil {
 		c.R.Anchor(rule, "package packer")
